@@ -35,7 +35,7 @@ def REQUIRED(tier):
 
 def _required(tier):
     return ["azimuth:outside_0_360", "angles:non_degree_unit", "edit:strings_containing_keywords", "object:after_product_at_other_depth", "bytes_roundtrips", "object_roundtrips", "edits_applied", "edits_refused_file_identical", "sky:dec_in_(-1,0)", "sky:carry_59.99",
-            "frame:pulsarcentric", "frame:barycentric", "frame:topocentric", "edit:absent_key", "edit:unknown_key", "edit:wrong_type", "edit:out_of_range", "derived:from_int_typed_template"]
+            "frame:pulsarcentric", "frame:barycentric", "frame:topocentric", "edit:absent_key", "edit:unknown_key", "edit:wrong_type", "edit:out_of_range", "derived:from_int_typed_template", "derived:update_to_zero"]
 
 
 def cases(tier, seed):
@@ -93,9 +93,15 @@ def _derived(case, ctx):
         ints = bool(j % 2 == 0)
         base = dict(filename="x.fil", data_type="filterbank", nchans=16, nbits=8, tsamp=0.001, nsamples=64)
         base.update(dict(tstart=58000, fch1=1500, foff=-1) if ints else dict(tstart=58000.0, fch1=1500.0, foff=-1.0))
+        zero_upd = j % 8 == 5
+        if zero_upd:       # the DM-0 version of data whose template carries a reference DM: a zero is a value like any other
+            base["dm"] = 56.75
         hdr = Header(**base)
         upd = [{"tstart": 58000.0 + float(rng.integers(1, 64)) / 64.0}, {"foff": -0.5, "fch1": 1499.75}, {"dm": float(rng.integers(1, 4000)) / 8.0 + 0.125},
                {"tstart": 58001.53125, "foff": -0.25}][j % 4]
+        if zero_upd:
+            upd = {"dm": 0.0}
+            ctx.count("derived:update_to_zero")
         ctx.evaluated(); ctx.count("derived_headers"); ctx.count("derived:from_int_typed_template" if ints else "derived:from_float_typed_template")
         one = {"kind": "derived", "n": case["n"], "seed": case["seed"], "j": j, "updates": upd, "int_typed": ints}
         path = os.path.join(ctx.tmp, f"dv{case['seed']}_{j}.fil")
